@@ -553,7 +553,8 @@ pub fn run(tier: &str, seed: u64) -> i32 {
         one-member rule (and its negation, giving a three-valued member result); the quantified verdict must \
         equal: plain = some member true, all = every member true, of(n>=1) = at least n true, of(0) = none true \
         and at least one false. The quantified rule is additionally checked against the reference interpreter. \
-        Non-trivial: list length >= 2 (or length 1 with threshold != 1) and the documents make some but not all \
+        Sampled lists include every member with both case flags (twins) and array documents whose elements \
+        satisfy different members. Non-trivial: list length >= 2 (or length 1 with threshold != 1) and the documents make some but not all \
         members true or give both verdicts; distinct by rule text."
         .into();
     report.assumptions = vec![
